@@ -72,7 +72,11 @@ CLAIMED = {
              'within the bound and rejects two mechanism mutants (no NO_PYFRAME walk, no forgiveness).  Each failing run is replayed: '
              'str(error) is parsed line by line into depth / kind / what is shown and compared with the projection of the model '
              'rendering, the last line must be the original error; exact ticks and marks are compared as DRIFT.  Random deeper trees '
-             'and plans recorded from glom are validated by TLC.',
+             'and plans recorded from glom are validated by TLC.  The error messages of every failing glom() call of the '
+             'repository\'s own test-suite are recorded with their scope events (hook) and validated by TLC (Trace_Stack).  '
+             'Variants per sampled case: foreign exception classes with their own __str__, errors that cannot be copied, notes on '
+             'branch errors, long / non-ASCII / exact-fit / deque / True / empty-string root targets, other widths, a second '
+             'evaluation of the same spec objects.',
         design='4/C05',
         technique='TLA+ frame machine + rendering laws (TLC), spec mutants, replay with parsed error messages, TLC validation of recorded traces'),
     'C04': dict(
